@@ -243,7 +243,7 @@ theorem soundE_succ : SoundE env (f + 1) := by
         split at hty
         · rename_i hcv
           simp only [Option.some.injEq] at hty
-          have := hasTy_iff.mp hcv
+          have := hasTy_iff.mp (Bool.and_eq_true _ _ ▸ hcv).2
           exact ⟨stackWF_cons.mpr ⟨this.1, hw⟩, by simp [← hty, this.2]⟩
         · simp at hty
       · -- LAMBDA
